@@ -197,10 +197,10 @@ NCASE = len(CASES)
 
 def end_to_end(ci: int, how: int) -> bool:
     """
-    pre: 0 <= ci < NCASE and 0 <= how <= 3
+    pre: 0 <= ci < NCASE and 0 <= how <= 5
     post: _
     """
-    ci, how = pick(ci, NCASE), pick(how, 4)
+    ci, how = pick(ci, NCASE), pick(how, 6)
     with Native():
         ok = run_e2e_case(ci, how)
     V.reached()
@@ -216,6 +216,11 @@ def run_e2e_case(ci, how):
         o = cls(**dict(reversed(list(kw.items()))))           # argument order
     elif how == 2:
         o = stix2.parse(dict(kw, type=name), version="2.1")   # via parse
+    elif how == 4:
+        o = cls(custom_properties=dict(kw))                   # every value handed over through custom_properties
+    elif how == 5:
+        b = stix2.v21.Bundle(objects=[dict(kw, type=name, spec_version="2.1")])   # as a bundle member given as a dictionary (marked 2.1: without id it would look like 2.0)
+        o = b.objects[0]
     else:
         first = cls(**kw)
         d = json.loads(first.serialize())
@@ -248,40 +253,64 @@ def json_serializable(i: int, b: bool, s: str, kind: int) -> bool:
 
 
 # ---- registered custom observables: id from the declared id-contributing properties only
-def custom_observable(has_a: bool, has_b: bool, has_c: bool, falsy: bool) -> bool:
+def custom_observable(has_a: bool, has_b: bool, has_c: bool, falsy: bool, via: int = 0, has_e: bool = False, has_d: bool = False) -> bool:
     """
+    pre: 0 <= via <= 2
     post: _
     """
-    has_a, has_b, has_c, falsy = pickb(has_a), pickb(has_b), pickb(has_c), pickb(falsy)
+    has_a, has_b, has_c, falsy, via, has_e, has_d = pickb(has_a), pickb(has_b), pickb(has_c), pickb(falsy), pick(via, 3), pickb(has_e), pickb(has_d)
     with Native():
-        ok = run_custom_case(has_a, has_b, has_c, falsy)
+        ok = run_custom_case(has_a, has_b, has_c, falsy, via, has_e, has_d)
     V.reached()
     return ok
 
 
-def run_custom_case(has_a, has_b, has_c, falsy):
+def run_custom_case(has_a, has_b, has_c, falsy, via=0, has_e=False, has_d=False):
+    """the declared contributors are two own properties, an own property with a default, and two properties every SCO has (extensions,
+    defanged); values arrive as keyword arguments, through custom_properties, or by parsing a dictionary; the id is the UUIDv5 of the
+    canonical JSON of the contributors the finished object carries"""
     from stix2 import registry
     saved = dict(registry.STIX2_OBJ_MAPS["2.1"]["observables"])
     try:
         @stix2.v21.CustomObservable("x-probe-sco", [("a_val", stix2.properties.StringProperty()), ("b_num", stix2.properties.IntegerProperty()),
-                                                    ("c_other", stix2.properties.StringProperty())], ["a_val", "b_num"])
+                                                    ("c_other", stix2.properties.StringProperty()),
+                                                    ("d_dflt", stix2.properties.StringProperty(default=lambda: "dflt"))],
+                                       ["a_val", "b_num", "d_dflt", "extensions", "defanged"])
         class Probe(object):
             pass
-        kw, contrib = {}, {}
+
+        @stix2.v21.CustomObservable("x-plain-sco", [("a_val", stix2.properties.StringProperty()), ("c_other", stix2.properties.StringProperty())], ["a_val"])
+        class Plain(object):
+            pass
+        kw, contrib = {}, {"d_dflt": "dflt", "defanged": False}      # what the finished object carries by default
         if has_a:
             kw["a_val"] = contrib["a_val"] = "" if falsy else "é\"\n"
         if has_b:
             kw["b_num"] = contrib["b_num"] = 0 if falsy else 10 ** 21
         if has_c:
             kw["c_other"] = "zz"
-        if not kw:
-            kw["c_other"] = "only"
-        o = Probe(**kw)
-        o2 = stix2.parse(dict(kw, type="x-probe-sco"), version="2.1")
-        if contrib:
-            want = "x-probe-sco--%s" % uuid.uuid5(NS, indep_canon(contrib).replace(str(10 ** 21), "1e+21"))
-            return o.id == want and o2.id == want
-        return uuid.UUID(o.id[-36:]).version == 4 and o.id != o2.id
+        if has_d:
+            kw["d_dflt"] = contrib["d_dflt"] = "" if falsy else "given"
+        if has_e:
+            kw["defanged"] = contrib["defanged"] = not falsy
+            kw["extensions"] = {"extension-definition--" + gen.UU: {"extension_type": "property-extension", "k": 0 if falsy else 1}}
+            contrib["extensions"] = kw["extensions"]
+        want = "x-probe-sco--%s" % uuid.uuid5(NS, indep_canon(contrib).replace(str(10 ** 21), "1e+21"))
+        if via == 0:
+            o = Probe(**kw)
+        elif via == 1:
+            split = {k: v for k, v in kw.items() if k in ("a_val", "b_num", "d_dflt")}
+            o = Probe(custom_properties=split, **{k: v for k, v in kw.items() if k not in split})
+        else:
+            o = stix2.parse(dict(kw, type="x-probe-sco"), version="2.1")
+        if o.id != want:
+            return False
+        # a type whose only contributor is absent gets a random id, different every time; present, the deterministic one by any route
+        p1, p2 = Plain(c_other="x"), Plain(c_other="x")
+        if uuid.UUID(p1.id[-36:]).version != 4 or p1.id == p2.id:
+            return False
+        w2 = "x-plain-sco--%s" % uuid.uuid5(NS, indep_canon({"a_val": "v"}))
+        return Plain(a_val="v").id == w2 and Plain(custom_properties={"a_val": "v"}).id == w2
     finally:
         registry.STIX2_OBJ_MAPS["2.1"]["observables"].clear()
         registry.STIX2_OBJ_MAPS["2.1"]["observables"].update(saved)
